@@ -14,7 +14,9 @@ package main
 // Probes (property predicates evaluated on the real code):
 //   sparse_key_confined, sparse_secret_recovered, keys_sufficient, required_stable, output_level_scale,
 //   bootstrap_precision (measured), c2s_s2c_inverse (measured), batch_bootstrap (measured),
-//   shallowcopy_matches (copies of the evaluator), no_p_keygen, defaults_instantiable.
+//   shallowcopy_matches (copies of the evaluator), no_p_keygen, defaults_instantiable,
+//   no_identity_galois_key,
+//   grouped_split_inverse / grouped_split_patched (grouped depth splits, real order vs suggested patch).
 
 import (
 	"fmt"
@@ -24,6 +26,7 @@ import (
 
 	"github.com/tuneinsight/lattigo/v6/circuits/ckks/bootstrapping"
 	"github.com/tuneinsight/lattigo/v6/circuits/ckks/dft"
+	ltcommon "github.com/tuneinsight/lattigo/v6/circuits/ckks/lintrans"
 	"github.com/tuneinsight/lattigo/v6/circuits/ckks/mod1"
 	"github.com/tuneinsight/lattigo/v6/core/rlwe"
 	"github.com/tuneinsight/lattigo/v6/ring"
@@ -40,6 +43,7 @@ func genC18(c *Ctx) {
 	c18Defaults(c)
 	c18NoP(c)
 	c18C2SS2C(c)
+	c18GroupedPatched(c)
 	for _, cfg := range c18Configs(c) {
 		c18Pipeline(c, cfg)
 	}
@@ -56,6 +60,11 @@ func b01(b bool) string {
 
 func c18RandLevels(c *Ctx, logSlots int) []int {
 	depth := 1 + c.rng.Intn(utils.Min(logSlots, 6))
+	// at most 5 FFT layers merged into one matrix (the shipped literals merge 4): the model keeps index
+	// sets as lists, 3^layers entries
+	if m := (logSlots + 4) / 5; depth < m {
+		depth = m
+	}
 	var lv []int
 	for depth > 0 {
 		g := 1 + c.rng.Intn(utils.Min(depth, 3))
@@ -82,7 +91,7 @@ func c18SmallParams(logN, nQ int) ckks.Parameters {
 }
 
 func c18HelperRot(c *Ctx) {
-	n := c.Scale(400, 4000)
+	n := c.Scale(1500, 6000)
 	paramsByLogN := map[int]ckks.Parameters{}
 	for i := 0; i < n; i++ {
 		logN := 4 + c.rng.Intn(c.Scale(8, 12)) // 4..11 / 4..15
@@ -119,7 +128,7 @@ func c18HelperRot(c *Ctx) {
 }
 
 func c18LtIndex(c *Ctx) {
-	n := c.Scale(120, 1200)
+	n := c.Scale(300, 1500)
 	cache := map[[2]int]ckks.Parameters{}
 	for i := 0; i < n; i++ {
 		logN := 4 + c.rng.Intn(c.Scale(5, 7)) // 4..8 / 4..10
@@ -195,7 +204,7 @@ func c18LayoutOut(p bootstrapping.Parameters) string {
 }
 
 func c18LayoutRandom(c *Ctx) {
-	n := c.Scale(60, 600)
+	n := c.Scale(150, 800)
 	for i := 0; i < n; i++ {
 		logN := 9 + c.rng.Intn(2)
 		nRes := 1 + c.rng.Intn(3)
@@ -426,8 +435,106 @@ func c18C2SS2C(c *Ctx) {
 					detail = fmt.Sprintf("precision real=%d imag=%d bits", int(st.AVGLog2Prec.Real), int(st.AVGLog2Prec.Imag))
 				}
 			}()
-			c.Probe("c2s_s2c_inverse", fmt.Sprintf("logN=%d logSlots=%d c2s=%s s2c=%s measured=1", logN, logSlots, IVec(split[0]), IVec(split[1])), "C18-c2s-s2c", detail)
+			key := "C18-c2s-s2c"
+			if dc != len(split[0]) || ds != len(split[1]) {
+				key = "C18-grouped-split-rescale"
+			}
+			c.Probe("c2s_s2c_inverse", fmt.Sprintf("logN=%d logSlots=%d c2s=%s s2c=%s measured=1", logN, logSlots, IVec(split[0]), IVec(split[1])), key, detail)
 		}
+	}
+}
+
+// c18PatchedDFT is the evaluation order the level layout of NewMatrixFromLiteral assumes: the
+// Levels[i] matrices of a group (each scaled by Q[level]^(1/Levels[i])) are applied back to back and
+// ONE rescale follows the group. (dft.Evaluator.dft calls lintrans.EvaluateSequential, which rescales
+// after every matrix.) Used only to show that the suggested patch restores the grouped splits.
+func c18PatchedDFT(de *dft.Evaluator, in *rlwe.Ciphertext, m dft.Matrix, out *rlwe.Ciphertext) error {
+	idx := 0
+	cur := in
+	for _, n := range m.Levels {
+		for j := 0; j < n; j++ {
+			if err := de.LTEvaluator.EvaluateMany(cur, []ltcommon.LinearTransformation{m.Matrices[idx]}, []*rlwe.Ciphertext{out}); err != nil {
+				return err
+			}
+			cur = out
+			idx++
+		}
+		if err := de.Rescale(out, out); err != nil {
+			return err
+		}
+	}
+	out.LogDimensions = in.LogDimensions
+	return nil
+}
+
+// c18GroupedPatched: grouped depth splits with the patched evaluation order (Format Standard, so
+// that CoeffsToSlots / SlotsToCoeffs are the bare DFTs).
+func c18GroupedPatched(c *Ctx) {
+	logN := 9
+	params, err := ckks.NewParametersFromLiteral(ckks.ParametersLiteral{LogN: logN, LogQ: []int{55, 45, 45, 45, 45, 45, 45}, LogP: []int{55, 55}, LogDefaultScale: 45})
+	must(err)
+	kgen := rlwe.NewKeyGenerator(params)
+	sk := kgen.GenSecretKeyNew()
+	ecd := ckks.NewEncoder(params)
+	enc := rlwe.NewEncryptor(params, sk)
+	dec := rlwe.NewDecryptor(params, sk)
+	for _, logSlots := range []int{logN - 1, 4} {
+		c2s := dft.MatrixLiteral{Type: dft.HomomorphicEncode, Format: dft.Standard, LogSlots: logSlots, LevelQ: params.MaxLevel(), LevelP: params.MaxLevelP(), Levels: []int{2, 1}, LogBSGSRatio: 1}
+		s2c := dft.MatrixLiteral{Type: dft.HomomorphicDecode, Format: dft.Standard, LogSlots: logSlots, LevelQ: params.MaxLevel() - 2, LevelP: params.MaxLevelP(), Levels: []int{1, 2}, LogBSGSRatio: 1}
+		run := func(patched bool) string {
+			return Try(func() string {
+				mc, err := dft.NewMatrixFromLiteral(params, c2s, ecd)
+				must(err)
+				ms, err := dft.NewMatrixFromLiteral(params, s2c, ecd)
+				must(err)
+				gal := append(c2s.GaloisElements(params), s2c.GaloisElements(params)...)
+				evk := rlwe.NewMemEvaluationKeySet(kgen.GenRelinearizationKeyNew(sk), kgen.GenGaloisKeysNew(c18Sorted(gal), sk)...)
+				de := dft.NewEvaluator(params, ckks.NewEvaluator(params, evk))
+				vals := c18RandValues(c, 1<<logSlots)
+				pt := ckks.NewPlaintext(params, params.MaxLevel())
+				pt.LogDimensions = ring.Dimensions{Rows: 0, Cols: logSlots}
+				must(ecd.Encode(vals, pt))
+				ct, err := enc.EncryptNew(pt)
+				must(err)
+				var out *rlwe.Ciphertext
+				if patched {
+					mid := ckks.NewCiphertext(params, 1, c2s.LevelQ)
+					if err := c18PatchedDFT(de, ct, mc, mid); err != nil {
+						return "c2s-error"
+					}
+					out = ckks.NewCiphertext(params, 1, s2c.LevelQ)
+					if err := c18PatchedDFT(de, mid, ms, out); err != nil {
+						return "s2c-error"
+					}
+				} else {
+					re, _, err := de.CoeffsToSlotsNew(ct, mc)
+					if err != nil {
+						return "c2s-error"
+					}
+					if out, err = de.SlotsToCoeffsNew(re, nil, ms); err != nil {
+						return "s2c-error(level " + I(re.Level()) + " < " + I(ms.LevelQ) + ")"
+					}
+				}
+				st := ckks.GetPrecisionStats(params, ecd, dec, vals, out, 0, false)
+				if st.AVGLog2Prec.Real < 18 || st.AVGLog2Prec.Imag < 18 {
+					return fmt.Sprintf("precision %d bits at level %d", int(math.Min(st.AVGLog2Prec.Real, st.AVGLog2Prec.Imag)), out.Level())
+				}
+				return "ok"
+			})
+		}
+		args := fmt.Sprintf("logN=%d logSlots=%d c2s=2,1 s2c=1,2 measured=1", logN, logSlots)
+		r := run(false)
+		detail := ""
+		if r != "ok" {
+			detail = r
+		}
+		c.Probe("grouped_split_inverse", args, "C18-grouped-split-rescale", detail)
+		r = run(true)
+		detail = ""
+		if r != "ok" {
+			detail = r
+		}
+		c.Probe("grouped_split_patched", args, "C18-grouped-split-patch", detail)
 	}
 }
 
@@ -522,7 +629,11 @@ func c18Configs(c *Ctx) []c18Cfg {
 		}
 		b := d.b
 		b.LogN = utils.Pointy(logN)
-		out = append(out, c18Cfg{name: d.name, res: r, btp: b, ratioAdj: adjSlots, minPrec: 10, thorough: i >= 2})
+		adj := adjSlots
+		if d.name == "N15QP768H192H32" {
+			adj = nil // Q[0] has 33 bits for a scale of 2^25: no room for a larger message ratio at level 0
+		}
+		out = append(out, c18Cfg{name: d.name, res: r, btp: b, ratioAdj: adj, minPrec: 10, thorough: i >= 2})
 	}
 
 	// 9. iterated bootstrapping with a reserved prime on 128-bit-precision residual parameters (HighPrecision)
@@ -586,6 +697,15 @@ func c18Pipeline(c *Ctx, cfg c18Cfg) {
 		p.Mod1ParametersLiteral.LogMessageRatio += cfg.ratioAdj(res, p)
 	}
 	paramsN2 := p.BootstrappingParameters
+	// a factorisation group with more than one matrix: known defect (one rescale per matrix), own finding key
+	grouped := p.SlotsToCoeffsParameters.Depth(false) != p.SlotsToCoeffsParameters.Depth(true) ||
+		p.CoeffsToSlotsParameters.Depth(false) != p.CoeffsToSlotsParameters.Depth(true)
+	keyOr := func(k string) string {
+		if grouped {
+			return "C18-grouped-split-rescale"
+		}
+		return k
+	}
 	tag := "cfg=" + cfg.name
 	c.Count("config:" + cfg.name)
 
@@ -597,6 +717,18 @@ func c18Pipeline(c *Ctx, cfg c18Cfg) {
 
 	// ---- generated Galois elements
 	c.Emit("generated "+c18GalArgs(p), Vec(c18Sorted(evk.GetGaloisKeysList())))
+
+	// ---- exactness: every generated Galois key is one the evaluator can request; the helper adds the
+	// identity (Galois element 1) when a DFT matrix has fewer than three diagonals
+	{
+		detail := ""
+		for _, g := range evk.GetGaloisKeysList() {
+			if g == 1 {
+				detail = "a Galois key for the identity automorphism (Galois element 1 = rotation by 0) is generated and never requested"
+			}
+		}
+		c.Probe("no_identity_galois_key", tag+" "+c18GalArgs(p), "C18-identity-galois-key", detail)
+	}
 
 	// ---- candidates and inventory
 	cands := []c18Cand{
@@ -698,7 +830,7 @@ func c18Pipeline(c *Ctx, cfg c18Cfg) {
 			} else if len(logk.missing) != 0 {
 				detail = "missing Galois keys " + Vec(logk.missing)
 			}
-			c.Probe("keys_sufficient", args, "C18-missing-key", detail)
+			c.Probe("keys_sufficient", args, keyOr("C18-missing-key"), detail)
 			if status != "ok" {
 				continue
 			}
@@ -722,7 +854,7 @@ func c18Pipeline(c *Ctx, cfg c18Cfg) {
 			} else if out.LogDimensions.Cols != ls {
 				detail = fmt.Sprintf("LogDimensions.Cols %d != %d", out.LogDimensions.Cols, ls)
 			}
-			c.Probe("output_level_scale", args, "C18-output-level", detail)
+			c.Probe("output_level_scale", args, keyOr("C18-output-level"), detail)
 
 			st := ckks.GetPrecisionStats(res, ecd, dec, vals, out, 0, false)
 			mp := c18MinPrec(cfg, res)
@@ -732,7 +864,7 @@ func c18Pipeline(c *Ctx, cfg c18Cfg) {
 				b := ckks.GetPrecisionStats(res, ecd, dec, vals, ct0, 0, false)
 				detail = fmt.Sprintf("avg log2 precision real=%d imag=%d < %d (fresh encryption without bootstrapping: real=%d)", int(st.AVGLog2Prec.Real), int(st.AVGLog2Prec.Imag), int(mp), int(b.AVGLog2Prec.Real))
 			}
-			c.Probe("bootstrap_precision", args+" measured=1", "C18-precision", detail)
+			c.Probe("bootstrap_precision", args+" measured=1", keyOr("C18-precision"), detail)
 			c.Count("bootstrap")
 		}
 	}
